@@ -3,10 +3,10 @@ package detector
 import (
 	"fmt"
 	"github.com/trajectoryjp/multidimensional-radix-tree/src/tree"
+	"github.com/trajectoryjp/spatial_id_go/v4/common"
 	"github.com/trajectoryjp/spatial_id_go/v4/common/consts"
 	"github.com/trajectoryjp/spatial_id_go/v4/common/errors"
 	"github.com/trajectoryjp/spatial_id_go/v4/integrate"
-	"github.com/trajectoryjp/spatial_id_go/v4/transform"
 	"strconv"
 	"strings"
 )
@@ -71,7 +71,7 @@ func CheckSpatialIdsArrayOverlap(spatialIds1 []string, spatialIds2 []string) (bo
 		}
 		// 高度インデックスをオフセット変換のみ実行して自然数にする
 		// minAltitudeKey == maxAltitudeKeyになるため結果は片方のみ利用する
-		convertedFIndex, _, errAltConversion := transform.ConvertZToMinMaxAltitudekey(int64(f1), int64(zoom1), int64(zoom1), consts.ZOriginValue, consts.ZBaseOffsetForNegativeFIndex)
+		convertedFIndex, errAltConversion := offsetFIndex(int64(f1), int64(zoom1))
 		if convertedFIndex < 0 {
 			return false, errors.NewSpatialIdError(errors.InputValueErrorCode, fmt.Sprintf("input f-index %v is out of altitude range @spatialId1[%v] = %v", f1, indexSpatialId1, spatialId1))
 		}
@@ -90,7 +90,7 @@ func CheckSpatialIdsArrayOverlap(spatialIds1 []string, spatialIds2 []string) (bo
 		// 取り出した要素の比較
 		// 高度インデックスをオフセット変換のみ実行して自然数にする
 		// minAltitudeKey == maxAltitudeKeyになるため結果は片方のみ利用する
-		convertedFIndex2, _, errAltConversion := transform.ConvertZToMinMaxAltitudekey(int64(f2), int64(zoom2), int64(zoom2), consts.ZOriginValue, consts.ZBaseOffsetForNegativeFIndex)
+		convertedFIndex2, errAltConversion := offsetFIndex(int64(f2), int64(zoom2))
 		if convertedFIndex2 < 0 {
 			return false, errors.NewSpatialIdError(errors.InputValueErrorCode, fmt.Sprintf("input f-index %v is out of altitude range @spatialId2[%v] = %v", f2, indexSpatialId2, spatialId2))
 		}
@@ -109,6 +109,24 @@ func CheckSpatialIdsArrayOverlap(spatialIds1 []string, spatialIds2 []string) (bo
 	}
 
 	return false, nil
+}
+
+// offsetFIndex 高度インデックスのオフセット変換関数
+//
+// 高度-2^24mのボクセルが0となるよう、fインデックスに当該ズームレベルでのオフセット(2^(zoom-1))を加算する。
+// ズームレベルが25を超える場合も下位ビットを失わないよう、fインデックスと同じズームレベルで加算する。
+//
+// 戻り値(エラー)：
+//
+//	変換後のインデックスが当該ズームレベルの範囲(0 ～ 2^zoom-1)に収まらない場合、エラーインスタンスが返却される。
+//	ズームレベル0のボクセルは高度範囲(±2^24m)に収まらないため、常にエラーとなる。
+func offsetFIndex(fIndex int64, zoom int64) (int64, error) {
+	offset := common.CalculateArithmeticShift(consts.ZBaseOffsetForNegativeFIndex, zoom-consts.ZOriginValue)
+	converted := fIndex + offset
+	if zoom < 1 || converted < 0 || converted >= common.CalculateArithmeticShift(1, zoom) {
+		return 0, errors.NewSpatialIdError(errors.InputValueErrorCode, "output index does not exist with given outputZoom, zBaseExponent, and zBaseOffset")
+	}
+	return converted, nil
 }
 
 // getSpatialIdAttrs 空間IDフォーマットチェック関数
